@@ -43,20 +43,25 @@ def assignments : List (Nat × Nat) → List (List (Nat × Nat) × List (Nat × 
 
 def skelPairs (M : MG) : List (Nat × Nat) := (C08.combos M.nodes).filter fun (a, b) => adjB M a b
 
+/-- candidate member: the nodes of `M` with the given directed and bidirected edges -/
+def cand (M : MG) (d b : List (Nat × Nat)) : MG := { nodes := M.nodes, dir := d, bi := b }
+
 /-- the Markov equivalence class of the MAG `M` (as graphs with directed and bidirected edges) -/
 def equivClass (M : MG) : List MG :=
   let qs := queries M.nodes
   let ref := qs.map (sepOf M)
-  ((assignments (skelPairs M)).map fun (d, b) => ({ nodes := M.nodes, dir := d, bi := b } : MG)).filter fun M' =>
+  ((assignments (skelPairs M)).map fun (d, b) => cand M d b).filter fun M' =>
     ancestralB M' && (qs.zip ref).all fun (q, r) => sepOf M' q == r
 
 def headAt (M : MG) (a b : Nat) : Bool := markB M a b == 2
 
+/-- the mark at `b` shared by the class: 2 head, 1 tail, 3 circle (not shared) -/
+def sharedMark (cls : List MG) (a b : Nat) : Nat :=
+  if cls.all (headAt · a b) then 2 else if cls.all (fun M' => !headAt M' a b) then 1 else 3
+
 /-- the PAG of `M` from the definition: a mark is kept iff every member of the class has it -/
 def pagOf (M : MG) : MG :=
-  let cls := equivClass M
-  let mk := fun (a b : Nat) =>       -- mark at b: 2 head, 1 tail, 3 circle
-    if cls.all (headAt · a b) then 2 else if cls.all (fun M' => !headAt M' a b) then 1 else 3
+  let mk := sharedMark (equivClass M)
   let ord := (skelPairs M).flatMap fun (a, b) => [(a, b), (b, a)]
   { nodes := M.nodes,
     circ := ord.filter fun (a, b) => mk a b == 3,
